@@ -379,7 +379,7 @@ pub fn build_event(w: &mut World, toks: &[String]) -> Built2 {
             }
         }
         "trading" => EngineEvent::TradingStateUpdate(if toks[1] == "on" { TradingState::Enabled } else { TradingState::Disabled }),
-        "snap" | "resp" | "fill" | "flat" | "price" => {
+        "snap" | "resp" | "fill" | "flat" | "price" | "reduce" => {
             if !ins_in_range(&toks[1]) {
                 return Built2::Panic;
             }
@@ -422,9 +422,18 @@ pub fn build_event(w: &mut World, toks: &[String]) -> Built2 {
                         },
                     }),
                 })),
-                "fill" | "flat" => {
+                "fill" | "flat" | "reduce" => {
                     let (side, qty) = if toks[0] == "fill" {
                         (parse_side(&toks[2]), parse_dec(&toks[3]))
+                    } else if toks[0] == "reduce" {
+                        // partial reduction: opposite side, half of the open quantity
+                        match &w.built.engine.state.instruments.instrument_index(&idx).position.current {
+                            Some(p) => (
+                                if p.side == Side::Buy { Side::Sell } else { Side::Buy },
+                                p.quantity_abs / Decimal::from(2),
+                            ),
+                            None => (Side::Buy, Decimal::ZERO),
+                        }
                     } else {
                         match &w.built.engine.state.instruments.instrument_index(&idx).position.current {
                             Some(p) => (
